@@ -194,6 +194,18 @@ theorem ige_enc_resume_outputs (C : Cipher) (hC : C.Valid) (iv : Bytes) (hiv : i
   exact (resume_outputs (Ige.encBlock C) (fun s => Ige.init C (Ige.ivState C s)) (Ige.init C iv) a b
     (ige_resume C _ this)).1
 
+theorem ige_dec_resume_outputs (C : Cipher) (hC : C.Valid) (iv : Bytes) (hiv : iv.length = 2 * C.bs)
+    (a b : List Bytes) (ha : AllLen C.bs a) :
+    (foldBlocks (Ige.decBlock C) (Ige.init C iv) a).1 ++
+      (foldBlocks (Ige.decBlock C) (Ige.init C (Ige.ivState C (foldBlocks (Ige.decBlock C) (Ige.init C iv) a).2)) b).1
+      = (foldBlocks (Ige.decBlock C) (Ige.init C iv) (a ++ b)).1 := by
+  have hy : (Ige.init C iv).y.length = C.bs := by simp [Ige.init]; omega
+  have hx : (Ige.init C iv).x.length = C.bs := by simp [Ige.init]; omega
+  have := ige_state_len C hC true a (Ige.init C iv) hy hx ha
+  simp only [if_true] at this
+  exact (resume_outputs (Ige.decBlock C) (fun s => Ige.init C (Ige.ivState C s)) (Ige.init C iv) a b
+    (ige_resume C _ this)).1
+
 /-! ### the exported value is the mode's *named* public chaining value -/
 
 /-- CBC: last ciphertext block (the IV while nothing was processed) — encryptor: last output, decryptor: last input. -/
